@@ -145,6 +145,8 @@ class Run:
                 out = type(e).__name__
         elif o == "insert_many":
             evs = [self.mk(op["v"]), self.mk(op["w"])]
+            if op["v"] == op["w"] and self.rnd.random() < 0.7:
+                evs = [evs[0], evs[0]]          # the same object twice in one bulk list (n * [event]) is ordinary use
             rec["vs"] = [op["v"], op["w"]]
             before = {e.id for e in self.bucket.get(-1)}
             try:
